@@ -186,13 +186,22 @@ Run(prog, arr, nbrs, env) == RunGroups(prog, 1, arr, nbrs, env, St0)
 (* compared as sets of per-neighbour event sequences; everything else is   *)
 (* compared position by position.                                          *)
 IsLoop(e) == e.k = "loop"
+\* destination array of every equation of a program
+EqDestOf(prog) ==
+    LET E == Flat([k \in DOMAIN prog |-> AllEqs(prog[k])])
+    IN [i \in {E[k].eid : k \in DOMAIN E} |-> E[CHOOSE k \in DOMAIN E : E[k].eid = i].dest]
 SameRun(e, f) == IsLoop(e) /\ IsLoop(f) /\ e.d = f.d /\ e.a = f.a
+\* two loop events belong to the same neighbour loop: same destination array
+\* and particle, same source array
+SameRunD(D, e, f) == IsLoop(e) /\ IsLoop(f) /\ e.d = f.d /\ e.a = f.a
+                     /\ e.id \in DOMAIN D /\ f.id \in DOMAIN D /\ D[e.id] = D[f.id]
 \* canonical form: each maximal run of loop events of one (d, a) is replaced
 \* by one marker event carrying the set of <<s, sequence of equation ids>>
-Canon(log) ==
+Canon(log, D) ==
     LET n == Len(log)
-        start(i) == IsLoop(log[i]) /\ (i = 1 \/ ~SameRun(log[i - 1], log[i]))
-        endOf[i \in 1..n] == IF i < n /\ SameRun(log[i], log[i + 1]) THEN endOf[i + 1] ELSE i
+        SameRunX(e, f) == SameRunD(D, e, f)
+        start(i) == IsLoop(log[i]) /\ (i = 1 \/ ~SameRunX(log[i - 1], log[i]))
+        endOf[i \in 1..n] == IF i < n /\ SameRunX(log[i], log[i + 1]) THEN endOf[i + 1] ELSE i
         groupsOf(i, j) ==   \* <<s, eids>> for each maximal sub-run with equal s
             LET first(k) == k = i \/ log[k].s # log[k - 1].s
                 last[k \in i..j] == IF k < j /\ log[k + 1].s = log[k].s THEN last[k + 1] ELSE k
@@ -210,7 +219,8 @@ Canon(log) ==
             ELSE <<plain(log[i])>> \o F[i + 1]
     IN F[1]
 
-Matches(prog, arr, nbrs, env, log) == Canon(log) = Canon(Run(prog, arr, nbrs, env).log)
+Matches(prog, arr, nbrs, env, log) ==
+    Canon(log, EqDestOf(prog)) = Canon(Run(prog, arr, nbrs, env).log, EqDestOf(prog))
 
 \* first position at which the canonical forms differ (0 = none)
 FirstDiff(p, q) ==
